@@ -67,6 +67,10 @@ func buildGroup(g *gnode) *quickfix.RepeatingGroup {
 		ge := rg.Add()
 		for _, f := range e {
 			if f.Grp != nil {
+				if len(f.Grp.Entries) >= 2 && len(f.Grp.Entries)%2 == 0 {
+					// written once with fewer entries, then replaced: what was written last is what must come back
+					ge.SetGroup(buildGroup(&gnode{Tag: f.Grp.Tag, Tmpl: f.Grp.Tmpl, Entries: f.Grp.Entries[:1]}))
+				}
 				ge.SetGroup(buildGroup(f.Grp))
 			} else {
 				ge.SetString(quickfix.Tag(f.Tag), f.Val)
@@ -273,6 +277,9 @@ func roundTrip(r *core.Result, mode string, begin, msgType string, g *gnode, oth
 		wrg, readTmpl = buildGroupShared(g)
 		m.Body.SetGroup(wrg)
 	} else {
+		if len(g.Entries) >= 2 && len(g.Entries)%2 == 0 {
+			m.Body.SetGroup(buildGroup(&gnode{Tag: g.Tag, Tmpl: g.Tmpl, Entries: g.Entries[:1]})) // replaced below
+		}
 		m.Body.SetGroup(buildGroup(g))
 		readTmpl = tmplOf(g.Tmpl)
 	}
